@@ -1226,7 +1226,7 @@ func ruleStitchVariable(r *Run) {
 		}
 	}
 	for _, ins := range allInstrs(getv) {
-		if mu, ok := ins.(*ssa.MapUpdate); ok && dependsOnField(mu.Value, "ID") {
+		if mu, ok := ins.(*ssa.MapUpdate); ok && r.valueFromField(mu.Value, "ID", 0) {
 			if k, ok := mu.Key.(*ssa.Const); ok && k.Value != nil {
 				filled = append(filled, strings.Trim(k.Value.ExactString(), `"`))
 			}
@@ -1269,6 +1269,51 @@ func ruleStitchVariable(r *Run) {
 		"the variable name the planner puts into `node(id: $…)` ("+strings.Join(planned, ",")+"), the name the executor stores the entity id under ("+strings.Join(filled, ",")+") and the name de-duplication looks up ("+strings.Join(looked, ",")+") differ: child steps are sent without their id")
 	okArg := len(argName) == 1 && argName[0] == "id"
 	r.Check(okArg, rule, fnName(conv), "node argument name", r.P.pos(conv.Pos()), "the wrapper calls node(id: …)", "the node wrapper no longer passes the argument `id` required by the Relay Node field")
+}
+
+// valueFromField: v is computed from a load of the named field — in the function itself, or
+// v is a result of a call of a module function and, in every return of that function that hands
+// back something else than a constant at that position (the zero value next to an error), the
+// value handed back is computed from such a load (a helper that extracts the field).
+func (r *Run) valueFromField(v ssa.Value, field string, depth int) bool {
+	if dependsOnField(v, field) {
+		return true
+	}
+	if depth > 2 {
+		return false
+	}
+	v = unwrap(v)
+	k := 0
+	if ex, ok := v.(*ssa.Extract); ok {
+		v, k = ex.Tuple, ex.Index
+	}
+	c, ok := v.(*ssa.Call)
+	if !ok {
+		return false
+	}
+	sc := c.Call.StaticCallee()
+	if sc == nil {
+		return false
+	}
+	h := r.P.declared(sc)
+	if h == nil || !inModule(h) || h.Blocks == nil {
+		return false
+	}
+	n := 0
+	for _, ret := range returnsOf(h) {
+		vals := retVals(ret)
+		if k >= len(vals) {
+			return false
+		}
+		if _, isConst := unwrap(vals[k]).(*ssa.Const); isConst {
+			continue
+		}
+		if !r.valueFromField(vals[k], field, depth+1) {
+			return false
+		}
+		n++
+	}
+	return n > 0
 }
 
 // maxHopsOnPath: the largest number of marked instructions on any entry-to-exit path of fn,
